@@ -49,3 +49,56 @@ def items(repo):
             return kind in ('glom', 'other') or (m, fn, what) in allow
         res.append(('%s.%s raises %s' % (m, fn, what), 'raise site constructs a GlomError subtype, re-raises, or is a recorded argument-validation / internal site', thunk))
     return res
+
+
+# ---- except clauses: which exception classes each handler in glom/*.py intercepts (C04: where an exception can change class or be swallowed)
+def _handler_classes(repo, module, node):
+    """the class names a handler's type expression denotes, module-level tuple constants expanded (so hoisting a tuple into a constant with
+    the same members is not a change); '<bare>' for `except:`, '<dynamic ...>' for anything computed"""
+    if node is None:
+        return ('<bare>',)
+    if isinstance(node, ast.Tuple):
+        out = []
+        for e in node.elts:
+            out += _handler_classes(repo, module, e)
+        return tuple(sorted(set(out)))
+    if isinstance(node, ast.Name):
+        const = repo.module_assigns.get(module, {}).get(node.id)
+        if isinstance(const, ast.Tuple):
+            return _handler_classes(repo, module, const)
+        return (node.id,)
+    if isinstance(node, ast.Attribute):
+        return (ast.unparse(node),)
+    return ('<dynamic %s>' % ast.unparse(node),)
+
+
+def except_sites(repo):
+    """-> sorted list of (module, function qualname, ordinal of the handler within the function, classes tuple, 'reraises'|'handles')"""
+    out = []
+    for fname, fi in sorted(repo.functions.items()):
+        k = 0
+        for n in ast.walk(fi.node):
+            if isinstance(n, ast.ExceptHandler):
+                k += 1
+                classes = _handler_classes(repo, fi.module, n.type)
+                rer = any(isinstance(x, ast.Raise) for b in n.body for x in ast.walk(b))
+                out.append((fi.module, fi.qual, k, ' | '.join(classes), 'raises' if rer else 'handles'))
+    return out
+
+
+def except_allowed():
+    p = os.path.join(HERE, 'except_sites_allowed.json')
+    return {tuple(x) for x in json.load(open(p))} if os.path.exists(p) else set()
+
+
+def except_items(repo):
+    """NativeFacts items: one per except clause; it must be a recorded (reviewed) clause with exactly the recorded class set"""
+    allow = except_allowed()
+    res = []
+    for site in except_sites(repo):
+        m, fn, k, classes, kind = site
+        def thunk(facts, site=site):
+            return site in allow
+        res.append(('%s.%s except#%d (%s) %s' % (m, fn, k, classes, kind),
+                    'the handler intercepts exactly the recorded exception classes (a widened / narrowed / new handler changes which errors leave glom() and as what)', thunk))
+    return res
